@@ -972,4 +972,13 @@ func ruleAuthenticatorsByDefinitionName(c *Ctx, rule string) {
 		}
 	}
 	c.obRF(rule, f, "reads-authenticators", n >= 1, "AuthenticatorsFor reads the registry of authenticators", "")
+	// … for EVERY definition it is asked about: no definition is passed over on account of its type, its location or
+	// anything else (a scheme left out of the route's table is silently skipped by the AND over an alternative's schemes)
+	if len(loops) == 1 {
+		isLk := func(in ssa.Instruction) bool {
+			lk, ok := in.(*ssa.Lookup)
+			return ok && vFieldLoad("rt/middleware/untyped.API", "authenticators", nil)(lk.X)
+		}
+		c.obI(rule, loops[0].Next, "every-definition-looked-up", loops[0].everyIteration(isLk), "every security definition handed to AuthenticatorsFor is looked up in the registry", "an iteration can skip the registry lookup: that definition's registered authenticator is left out of the route")
+	}
 }
